@@ -30,6 +30,9 @@ type c06List struct {
 	MaxDepth   int
 	UnknownAt  string // "" if none
 	unknownSet bool
+	LongN      int // when > 0: the first list built at depth LongAt has this many entries
+	LongAt     int
+	longDone   bool
 }
 
 func c06Command(r *rand.Rand, uid *gen.UID) *pipeline.CommandStep {
@@ -105,6 +108,9 @@ func c06Other(r *rand.Rand, uid *gen.UID) pipeline.Step {
 // unknownPos (clamped; -1 = last).
 func (l *c06List) build(r *rand.Rand, uid *gen.UID, depth, maxDepth, unknownDepth, unknownPos int) pipeline.Steps {
 	n := 1 + r.IntN(4)
+	if l.LongN > 0 && depth == l.LongAt && !l.longDone {
+		n, l.longDone = l.LongN, true
+	}
 	var steps pipeline.Steps
 	mustGroup := (unknownDepth > depth && !l.unknownSet) || (depth < maxDepth && r.IntN(3) == 0)
 	groupAt := r.IntN(n)
@@ -182,6 +188,15 @@ func checkC06(c *run.Ctx) {
 		kp := all[kind][0]
 		l := &c06List{}
 		maxDepth := r.IntN(5)
+		if mix(i, 11, 6) == 0 {
+			// a long list (at the top or inside a group): the 33rd, the 65th, the last of 257 steps are signed like the first
+			l.LongN = []int{31, 33, 39, 64, 65, 100, 257}[mix(i, 12, 7)]
+			l.LongAt = mix(i, 13, 2)
+			if l.LongAt > maxDepth {
+				maxDepth = l.LongAt
+			}
+			c.Count("lists_with_more_than_30_steps", 1)
+		}
 		unknownDepth := -1
 		unknownPos := 0
 		if i%2 == 1 {
